@@ -32,7 +32,7 @@ for prop in sys.argv[1:]:
             pred = lambda x, cls=cls: x['f'].get(col, 'na').startswith('rej') and x['f'].get(clscol) == cls
             seq = vlib.shrink(cx, work, suite, seq, pred, budget=80)
             rr = vlib.replay_seq(cx, work, suite, seq, 'final')
-            res[cls] = dict(suite=suite, seq=seq, ops=([' '.join(bytes.fromhex(a).decode('latin1') for a in o.get('cmd', [])) + (' [+%dms]' % o['adv'] if o.get('adv') else '') + (' @conn%d' % o['conn'] if o.get('conn', -1) >= 0 else '') for o in seq['ops']] if 'ops' in seq else [json.dumps(seq.get('z') or seq.get('writes'))[:400]]),
+            res[cls] = dict(suite=suite, seq=seq, ops=([(' '.join(bytes.fromhex(a).decode('latin1') for a in o.get('cmd', [])) or ('<sampler pass on db %d>' % (o['tick'] - 1) if o.get('tick') else '')) + (' [+%dms]' % o['adv'] if o.get('adv') else '') + (' @conn%d' % o['conn'] if o.get('conn', -1) >= 0 else '') for o in seq['ops']] if 'ops' in seq else [json.dumps(seq.get('z') or seq.get('writes'))[:400]]),
                             last=dict(reply=rr[-1]['kind'] + ':' + repr(rr[-1]['payload'][:60]), verdict=rr[-1]['f'].get(col)))
     out[prop] = res
 shutil.rmtree(work, ignore_errors=True)
